@@ -119,9 +119,11 @@ func ConversationToNetconf(conversation []dhcpv6.DHCPv6) (*BootConf, error) {
 		bootconf.BootfileParam = reply.Options.BootFileParam()
 	} else {
 		log.Printf("no bootfile URL option found in REPLY, fallback to ADVERTISE's value")
-		if u := advertise.Options.BootFileURL(); len(u) > 0 {
-			bootconf.BootfileURL = u
-			bootconf.BootfileParam = advertise.Options.BootFileParam()
+		if advertise != nil {
+			if u := advertise.Options.BootFileURL(); len(u) > 0 {
+				bootconf.BootfileURL = u
+				bootconf.BootfileParam = advertise.Options.BootFileParam()
+			}
 		}
 	}
 	if len(bootconf.BootfileURL) == 0 {
